@@ -455,6 +455,11 @@ func (w *inotify) handleEvent(inEvent *unix.InotifyEvent, buf *[65536]byte, offs
 		}
 
 		err := w.remove(watch.path)
+		if errors.Is(err, unix.EINVAL) {
+			// The kernel already dropped the watch (e.g. the renamed path was
+			// deleted before we got here), which is what we wanted anyway.
+			err = nil
+		}
 		if err != nil && !errors.Is(err, ErrNonExistentWatch) {
 			if !w.sendError(err) {
 				return Event{}, false
